@@ -311,7 +311,4 @@ def _run_for_attribution(case):
     return run_case(c)
 
 
-FINDINGS = {
-    'F04-real10-float': fz.by_neutralising(_run_for_attribution, fz.real10_present, fz.neutralise_real10,
-                                           subs=('der-fixpoint', 'cer-fixpoint'), kinds=('differ',)),
-}
+FINDINGS = {}
